@@ -318,6 +318,61 @@ func c18Cases(ar *gen18.Arity) []c18case {
 	return cs
 }
 
+// c18FilterPanics checks documented panics of FilterN/QueryN that are independent of builder order.
+func c18FilterPanics(ar *gen18.Arity) string {
+	g := newG18(ar)
+	g.filterWorld(ar)
+	// Relation() on a query whose filter has no relation configured
+	{
+		f := ar.NewFilter()
+		var q gen18.Query
+		if pv := catchP(func() { q = f.Query(&g.w) }); pv != nil {
+			return fmt.Sprintf("Query() of an unconfigured filter panicked: %v", pv)
+		}
+		bad := ""
+		if q.Q().Next() {
+			if !panicsP(func() { q.Relation() }) {
+				bad = "QueryN.Relation() of a filter without WithRelation did not panic"
+			}
+		}
+		q.Q().Close()
+		if bad != "" {
+			return bad
+		}
+	}
+	// a component of the filter that is not a relation
+	plain := ar.Types[ar.N-1]
+	if ar.N == 1 && ar.Rel {
+		plain = nil
+	}
+	if plain != nil {
+		f := ar.NewFilter()
+		f.WithRelation(plain)
+		if !panicsP(func() { q := f.Query(&g.w); q.Q().Close() }) {
+			return fmt.Sprintf("WithRelation(%v) (not a relation component); Query() did not panic", plain)
+		}
+		f2 := ar.NewFilter()
+		f2.WithRelation(plain)
+		if !panicsP(func() { f2.Register(&g.w) }) {
+			return fmt.Sprintf("WithRelation(%v) (not a relation component); Register() did not panic", plain)
+		}
+	}
+	// a relation component that is not part of the filter
+	if !ar.Rel {
+		f := ar.NewFilter()
+		f.WithRelation(generic.T[gen18.GR]())
+		if !panicsP(func() { q := f.Query(&g.w); q.Q().Close() }) {
+			return "WithRelation(GR) although GR is not in the filter; Query() did not panic"
+		}
+	}
+	if g.w.IsLocked() {
+		return "a rejected Query()/Register() left the world locked"
+	}
+	return ""
+}
+
+func panicsP(f func()) bool { return catchP(f) != nil }
+
 // runs one case on twin worlds; returns "" or a description of the disagreement
 func c18RunCase(ar *gen18.Arity, c *c18case) (msg string) {
 	a, b := newG18(ar), newG18(ar)
@@ -685,6 +740,12 @@ func init() {
 						}
 					}
 				}
+				// documented panics of the filter/query types: Relation() on a query without WithRelation; WithRelation with a
+				// component that is in the filter but is not a relation; WithRelation with a component outside the filter
+				if msg := c18FilterPanics(ar); msg != "" {
+					viol("filter:documented-panic", fmt.Sprintf("Filter%d (%s): %s", n, [...]string{"plain", "relation in position 0"}[v], msg), nil)
+				}
+				evals += 4
 				cs := c18Cases(ar)
 				for ci := range cs {
 					evals++
